@@ -216,27 +216,28 @@ theorem fits_unary (hT : TableOK L C.bp) (u : UnaryOperator) (s : S) (hwp : s.Do
 /-- The documented parenthesisation is good enough for the parser, for every table with
 `TableOK`. -/
 theorem wp_of_doc_both (hT : TableOK L C.bp) (s : S) :
-    (s.DocWP L → WP C s) ∧ (s.DocWPArgs L → WPArgs C s) ∧ (s.DocWPItems L → WPItems C s) := by
+    (s.DocWP L → WP C s) ∧ (s.DocWPArgs L → WPArgs C s) ∧ (s.DocWPItems L → WPItems C s)
+      ∧ (s.DocWPEntries L → WPEntries C s) := by
   induction s with
-  | int v => exact ⟨fun _ => trivial, fun h => by simp [S.DocWPArgs] at h, fun h => by simp [S.DocWPItems] at h⟩
-  | float v => exact ⟨fun _ => trivial, fun h => by simp [S.DocWPArgs] at h, fun h => by simp [S.DocWPItems] at h⟩
-  | str v => exact ⟨fun _ => trivial, fun h => by simp [S.DocWPArgs] at h, fun h => by simp [S.DocWPItems] at h⟩
-  | bool v => exact ⟨fun _ => trivial, fun h => by simp [S.DocWPArgs] at h, fun h => by simp [S.DocWPItems] at h⟩
-  | noneLit kw => exact ⟨id, fun h => by simp [S.DocWPArgs] at h, fun h => by simp [S.DocWPItems] at h⟩
-  | var n => exact ⟨id, fun h => by simp [S.DocWPArgs] at h, fun h => by simp [S.DocWPItems] at h⟩
+  | int v => exact ⟨fun _ => trivial, fun h => by simp [S.DocWPArgs] at h, fun h => by simp [S.DocWPItems] at h, fun h => by simp [S.DocWPEntries] at h⟩
+  | float v => exact ⟨fun _ => trivial, fun h => by simp [S.DocWPArgs] at h, fun h => by simp [S.DocWPItems] at h, fun h => by simp [S.DocWPEntries] at h⟩
+  | str v => exact ⟨fun _ => trivial, fun h => by simp [S.DocWPArgs] at h, fun h => by simp [S.DocWPItems] at h, fun h => by simp [S.DocWPEntries] at h⟩
+  | bool v => exact ⟨fun _ => trivial, fun h => by simp [S.DocWPArgs] at h, fun h => by simp [S.DocWPItems] at h, fun h => by simp [S.DocWPEntries] at h⟩
+  | noneLit kw => exact ⟨id, fun h => by simp [S.DocWPArgs] at h, fun h => by simp [S.DocWPItems] at h, fun h => by simp [S.DocWPEntries] at h⟩
+  | var n => exact ⟨id, fun h => by simp [S.DocWPArgs] at h, fun h => by simp [S.DocWPItems] at h, fun h => by simp [S.DocWPEntries] at h⟩
   | paren e ih =>
-    refine ⟨?_, fun h => by simp [S.DocWPArgs] at h, fun h => by simp [S.DocWPItems] at h⟩
+    refine ⟨?_, fun h => by simp [S.DocWPArgs] at h, fun h => by simp [S.DocWPItems] at h, fun h => by simp [S.DocWPEntries] at h⟩
     have ih := ih.1
     intro h
     exact ⟨ih h, follow_closer _ classify_rightParen (by simp [chainTok]) (by simp) e⟩
   | unary u e ih =>
-    refine ⟨?_, fun h => by simp [S.DocWPArgs] at h, fun h => by simp [S.DocWPItems] at h⟩
+    refine ⟨?_, fun h => by simp [S.DocWPArgs] at h, fun h => by simp [S.DocWPItems] at h, fun h => by simp [S.DocWPEntries] at h⟩
     have ih := ih.1
     intro h
     obtain ⟨hwe, hlv, h1, h2⟩ := h
     exact ⟨ih hwe, fits_unary hT u e hwe hlv, h1, h2⟩
   | binary op l r ihl ihr =>
-    refine ⟨?_, fun h => by simp [S.DocWPArgs] at h, fun h => by simp [S.DocWPItems] at h⟩
+    refine ⟨?_, fun h => by simp [S.DocWPArgs] at h, fun h => by simp [S.DocWPItems] at h, fun h => by simp [S.DocWPEntries] at h⟩
     have ihl := ihl.1
     have ihr := ihr.1
     intro h
@@ -245,7 +246,7 @@ theorem wp_of_doc_both (hT : TableOK L C.bp) (s : S) :
     · split at hlv <;> simp_all
     · split at hlv <;> simp_all
   | notIn l r ihl ihr =>
-    refine ⟨?_, fun h => by simp [S.DocWPArgs] at h, fun h => by simp [S.DocWPItems] at h⟩
+    refine ⟨?_, fun h => by simp [S.DocWPArgs] at h, fun h => by simp [S.DocWPItems] at h, fun h => by simp [S.DocWPEntries] at h⟩
     have ihl := ihl.1
     have ihr := ihr.1
     intro h
@@ -255,7 +256,7 @@ theorem wp_of_doc_both (hT : TableOK L C.bp) (s : S) :
     exact ⟨ihl hwl, ihr hwr, follow_not_in hT l hwl hl,
       fits_right hT .In r hwr (by simp [h0]; omega)⟩
   | ternary c t f ihc iht ihf =>
-    refine ⟨?_, fun h => by simp [S.DocWPArgs] at h, fun h => by simp [S.DocWPItems] at h⟩
+    refine ⟨?_, fun h => by simp [S.DocWPArgs] at h, fun h => by simp [S.DocWPItems] at h, fun h => by simp [S.DocWPEntries] at h⟩
     have ihc := ihc.1
     have iht := iht.1
     have ihf := ihf.1
@@ -264,21 +265,21 @@ theorem wp_of_doc_both (hT : TableOK L C.bp) (s : S) :
     exact ⟨ihc hwc, iht hwt, ihf hwf, follow_if hT t hwt hl,
       follow_closer _ classify_else (by simp [chainTok]) (by simp) c⟩
   | filter e n ih =>
-    refine ⟨?_, fun h => by simp [S.DocWPArgs] at h, fun h => by simp [S.DocWPItems] at h⟩
+    refine ⟨?_, fun h => by simp [S.DocWPArgs] at h, fun h => by simp [S.DocWPItems] at h, fun h => by simp [S.DocWPEntries] at h⟩
     have ih := ih.1
     intro h
     obtain ⟨hwe, hl⟩ := h
     have h0 : rightAssoc .Pipe = false := by decide
     exact ⟨ih hwe, follow_op hT .Pipe e hwe (by simp [h0]; omega)⟩
   | test e n g ih =>
-    refine ⟨?_, fun h => by simp [S.DocWPArgs] at h, fun h => by simp [S.DocWPItems] at h⟩
+    refine ⟨?_, fun h => by simp [S.DocWPArgs] at h, fun h => by simp [S.DocWPItems] at h, fun h => by simp [S.DocWPEntries] at h⟩
     have ih := ih.1
     intro h
     obtain ⟨hwe, hl, hn⟩ := h
     have h0 : rightAssoc .Is = false := by decide
     exact ⟨ih hwe, follow_op hT .Is e hwe (by simp [h0]; omega), hn⟩
   | index e i ihe ihi =>
-    refine ⟨?_, fun h => by simp [S.DocWPArgs] at h, fun h => by simp [S.DocWPItems] at h⟩
+    refine ⟨?_, fun h => by simp [S.DocWPArgs] at h, fun h => by simp [S.DocWPItems] at h, fun h => by simp [S.DocWPEntries] at h⟩
     have ihe := ihe.1
     have ihi := ihi.1
     intro h
@@ -286,45 +287,63 @@ theorem wp_of_doc_both (hT : TableOK L C.bp) (s : S) :
     refine ⟨ihe hwe, ihi hwi, ?_, follow_closer _ classify_rightBracket (by simp [chainTok]) (by simp) i⟩
     cases e <;> simp_all [S.primary, follow]
   | attr e n o ih =>
-    refine ⟨?_, fun h => by simp [S.DocWPArgs] at h, fun h => by simp [S.DocWPItems] at h⟩
+    refine ⟨?_, fun h => by simp [S.DocWPArgs] at h, fun h => by simp [S.DocWPItems] at h, fun h => by simp [S.DocWPEntries] at h⟩
     have ih := ih.1
     intro h
     exact ⟨h.1, ih h.2.1, h.2.2⟩
   | sub e i o ihe ihi =>
-    refine ⟨?_, fun h => by simp [S.DocWPArgs] at h, fun h => by simp [S.DocWPItems] at h⟩
+    refine ⟨?_, fun h => by simp [S.DocWPArgs] at h, fun h => by simp [S.DocWPItems] at h, fun h => by simp [S.DocWPEntries] at h⟩
     have ihe := ihe.1
     have ihi := ihi.1
     intro h
     exact ⟨h.1, ihe h.2.1, ihi h.2.2,
       follow_closer _ classify_rightBracket (by simp [chainTok]) (by simp) i⟩
   | argNil => exact ⟨fun h => by simp [S.DocWP] at h, fun _ => trivial,
-      fun h => by simp [S.DocWPItems] at h⟩
+      fun h => by simp [S.DocWPItems] at h, fun h => by simp [S.DocWPEntries] at h⟩
   | argCons k v r ihv ihr =>
-    refine ⟨fun h => by simp [S.DocWP] at h, ?_, fun h => by simp [S.DocWPItems] at h⟩
+    refine ⟨fun h => by simp [S.DocWP] at h, ?_, fun h => by simp [S.DocWPItems] at h, fun h => by simp [S.DocWPEntries] at h⟩
     intro h
     exact ⟨ihv.1 h.1, h.2.1, ihr.2.1 h.2.2⟩
   | itemNil => exact ⟨fun h => by simp [S.DocWP] at h, fun h => by simp [S.DocWPArgs] at h,
-      fun _ => trivial⟩
+      fun _ => trivial, fun h => by simp [S.DocWPEntries] at h⟩
   | itemCons sp x r ihx ihr =>
-    refine ⟨fun h => by simp [S.DocWP] at h, fun h => by simp [S.DocWPArgs] at h, ?_⟩
+    refine ⟨fun h => by simp [S.DocWP] at h, fun h => by simp [S.DocWPArgs] at h, ?_,
+      fun h => by simp [S.DocWPEntries] at h⟩
     intro h
-    exact ⟨ihx.1 h.1, ihr.2.2 h.2⟩
+    exact ⟨ihx.1 h.1, ihr.2.2.1 h.2⟩
+  | entryNil => exact ⟨fun h => by simp [S.DocWP] at h, fun h => by simp [S.DocWPArgs] at h,
+      fun h => by simp [S.DocWPItems] at h, fun _ => trivial⟩
+  | entryKV k v r ihv ihr =>
+    refine ⟨fun h => by simp [S.DocWP] at h, fun h => by simp [S.DocWPArgs] at h,
+      fun h => by simp [S.DocWPItems] at h, ?_⟩
+    intro h
+    exact ⟨ihv.1 h.1, ihr.2.2.2 h.2⟩
+  | entrySpread x r ihx ihr =>
+    refine ⟨fun h => by simp [S.DocWP] at h, fun h => by simp [S.DocWPArgs] at h,
+      fun h => by simp [S.DocWPItems] at h, ?_⟩
+    intro h
+    exact ⟨ihx.1 h.1, ihr.2.2.2 h.2⟩
+  | mapLit es ih =>
+    refine ⟨?_, fun h => by simp [S.DocWPArgs] at h, fun h => by simp [S.DocWPItems] at h,
+      fun h => by simp [S.DocWPEntries] at h⟩
+    intro h
+    exact ih.2.2.2 h
   | arr items ih =>
-    refine ⟨?_, fun h => by simp [S.DocWPArgs] at h, fun h => by simp [S.DocWPItems] at h⟩
+    refine ⟨?_, fun h => by simp [S.DocWPArgs] at h, fun h => by simp [S.DocWPItems] at h, fun h => by simp [S.DocWPEntries] at h⟩
     intro h
-    exact ih.2.2 h
+    exact ih.2.2.1 h
   | call n args ih =>
-    refine ⟨?_, fun h => by simp [S.DocWPArgs] at h, fun h => by simp [S.DocWPItems] at h⟩
+    refine ⟨?_, fun h => by simp [S.DocWPArgs] at h, fun h => by simp [S.DocWPItems] at h, fun h => by simp [S.DocWPEntries] at h⟩
     intro h
     exact ⟨h.1, ih.2.1 h.2⟩
   | filterA e n args ihe iha =>
-    refine ⟨?_, fun h => by simp [S.DocWPArgs] at h, fun h => by simp [S.DocWPItems] at h⟩
+    refine ⟨?_, fun h => by simp [S.DocWPArgs] at h, fun h => by simp [S.DocWPItems] at h, fun h => by simp [S.DocWPEntries] at h⟩
     intro h
     obtain ⟨hwe, hl, hwa⟩ := h
     have h0 : rightAssoc .Pipe = false := by decide
     exact ⟨ihe.1 hwe, follow_op hT .Pipe e hwe (by simp [h0]; omega), iha.2.1 hwa⟩
   | testA e n g args ihe iha =>
-    refine ⟨?_, fun h => by simp [S.DocWPArgs] at h, fun h => by simp [S.DocWPItems] at h⟩
+    refine ⟨?_, fun h => by simp [S.DocWPArgs] at h, fun h => by simp [S.DocWPItems] at h, fun h => by simp [S.DocWPEntries] at h⟩
     intro h
     obtain ⟨hwe, hl, hn, hwa⟩ := h
     have h0 : rightAssoc .Is = false := by decide
